@@ -264,6 +264,10 @@ class SmiV2Lexer(AbstractLexer):
             lineno=t.lineno)
         # t.lexer.skip(1)
 
+    # input that ends inside a MACRO, EXPORTS or CHOICE block, or anything
+    # else no rule of these states matches
+    t_macro_error = t_exports_error = t_choice_error = t_comment_error = t_error
+
 
 class SupportSmiV1Keywords(object):
     @staticmethod
